@@ -16,7 +16,7 @@ structure QRn where
   uqS : Option (Rn × Nat)
   /-- `strconv.UnquoteChar(q[i:], '"')` -/
   uqD : Option (Rn × Nat)
-deriving Repr
+deriving Repr, DecidableEq
 
 /-- the lexer state after `Next()`: `Token` (as runes), `TokenQuoted`, `SpaceSkipped`, `rawString` -/
 structure RawTok where
